@@ -108,7 +108,19 @@ def norm_probe(t, imports):
 LOCAL_REPL = {"LT": ("repa", "R1")}   # replacement of the type declared in package svc itself (always part of the setting)
 
 
-def expected_types(iface, by_name, repl, inpkg=True, local=False):
+ALT_TARGETS = [("repb", "R2"), ("repa", "R2"), ("rep/model", "R"), ("repb", "U"), ("repa", "R1")]
+
+
+def alt_repl(repl, local_repl):
+    """a second replacement map for the same source types with a different target for each (used by an interface that overrides its package's setting)"""
+    out = {}
+    for n, (k, v) in enumerate(sorted(repl.items())):
+        out[k] = [t for t in ALT_TARGETS[n % len(ALT_TARGETS):] + ALT_TARGETS if tuple(t) != tuple(v)][0]
+    loc = {k: [t for t in ALT_TARGETS[3:] + ALT_TARGETS if tuple(t) != tuple(v)][0] for k, v in local_repl.items()}
+    return out, loc
+
+
+def expected_types(iface, by_name, repl, inpkg=True, local=False, local_repl=None):
     """method set of iface -> {(method, kind, idx): normalised type} under replacement map repl {typeName: (path, name)};
     `local`: the svc.LT replacement is in force; `inpkg`: how an unreplaced svc type is named from the output file"""
     out = {}
@@ -131,7 +143,8 @@ def expected_types(iface, by_name, repl, inpkg=True, local=False):
             return t                        # a type parameter, whatever named type shares its identifier
         if t == "LT":
             if local:
-                return "<%s/%s>.%s" % (MOD, LOCAL_REPL["LT"][0], LOCAL_REPL["LT"][1])
+                lr = (local_repl or LOCAL_REPL)["LT"]
+                return "<%s/%s>.%s" % (MOD, lr[0], lr[1])
             return "LT" if inpkg else "<%s/svc>.LT" % MOD
         m = re.fullmatch(r"orig\.(\w+)", t)
         if m and m.group(1) in repl:
@@ -156,9 +169,12 @@ def gen_cases(ctx):
     n = 2 if ctx.tier == "quick" else 10
     for rep in range(n):
         for ri, r in enumerate(REPLACEMENTS):
-            for level in ("root", "pkg", "iface", "cfg", "root+iface", "recparent"):
-                cases.append({"seed": rng.randrange(1 << 30), "repl": {k: list(v) for k, v in r.items()}, "level": level,
-                              "placement": rng.choice(["inpkg", "outpkg"]), "builtin_formatter": rng.choice(["gofmt", "noop", "goimports"])})
+            for level in ("root", "pkg", "iface", "cfg", "root+iface", "recparent", "pkg+override"):
+                c = {"seed": rng.randrange(1 << 30), "repl": {k: list(v) for k, v in r.items()}, "level": level,
+                     "placement": rng.choice(["inpkg", "outpkg"]), "builtin_formatter": rng.choice(["gofmt", "noop", "goimports"])}
+                if level == "pkg+override":
+                    c["onefile"] = rep == 0 or c["seed"] % 2 == 0   # the witness: both maps meet in one output file
+                cases.append(c)
     return cases
 
 
@@ -193,7 +209,11 @@ def eval_case(ctx, case):
     rt = {MOD + "/orig": {k: {"pkg-path": MOD + "/" + v[0], "type-name": v[1]} for k, v in case["repl"].items()},
           MOD + "/svc": {k: {"pkg-path": MOD + "/" + v[0], "type-name": v[1]} for k, v in LOCAL_REPL.items()}}
     target = [i["name"] for i in ifaces]
-    onefile = case["seed"] % 2 == 0   # all interfaces of the package in ONE output file: per-file state must not leak a decision from one mock to the next
+    alt, alt_local = alt_repl({k: tuple(v) for k, v in case["repl"].items()}, LOCAL_REPL)
+    rt2 = {MOD + "/orig": {k: {"pkg-path": MOD + "/" + v[0], "type-name": v[1]} for k, v in alt.items()},
+           MOD + "/svc": {k: {"pkg-path": MOD + "/" + v[0], "type-name": v[1]} for k, v in alt_local.items()}}
+    overriders = set(target[1::2]) if case["level"] == "pkg+override" else set()
+    onefile = case["onefile"] if "onefile" in case else case["seed"] % 2 == 0   # all interfaces of the package in ONE output file: per-file state must not leak a decision from one mock to the next
     base = {"template": "file://sig.templ", "require-template-schema-exists": False, "formatter": "noop",
             "filename": "sig_all.txt" if onefile else "sig_{{.InterfaceName}}.txt"}
     if case["placement"] == "outpkg":
@@ -212,8 +232,11 @@ def eval_case(ctx, case):
         if with_rt:
             if "root" in lvl:
                 cfg["replace-type"] = rt
-            if lvl == "pkg":
+            if lvl in ("pkg", "pkg+override"):
                 pk["config"]["replace-type"] = rt
+            # every second interface overrides the package's map with other targets for the same source types: the whole more specific map is in force for it
+            for nm in overriders:
+                pk["interfaces"][nm]["config"]["replace-type"] = rt2
         if lvl == "recparent":
             # written in the config of a recursive package above: reaches the explicitly listed sub-package, its listed and its unlisted interfaces alike
             pk["config"]["all"] = True
@@ -251,12 +274,15 @@ def eval_case(ctx, case):
         results[with_rt] = (per, scoped_all, root)
     tags = ["level=" + case["level"], "placement=" + case["placement"], "repl=" + "+".join(sorted(case["repl"]))]
     repl = {k: (MOD + "/" + v[0], v[1]) for k, v in case["repl"].items()}
+    repl2 = {k: (MOD + "/" + v[0], v[1]) for k, v in alt.items()}
     checked = 0
     for with_rt in (False, True):
         per, scoped_all, _ = results[with_rt]
         for nm in target:
             in_scope = with_rt and (scoped_all or nm not in ("OnlyOther", "Rand0"))
-            exp = expected_types(by_name[nm], by_name, repl if in_scope else {}, inpkg=case["placement"] == "inpkg", local=in_scope)
+            over = with_rt and nm in overriders
+            exp = expected_types(by_name[nm], by_name, (repl2 if over else repl) if in_scope else {}, inpkg=case["placement"] == "inpkg", local=in_scope,
+                                 local_repl=alt_local if over else None)
             imports, types = per[nm]
             got = {(m, k, i): re.sub(r"\s+", "", norm_probe(t, imports)) for (ifn, m, k, i), t in types.items() if ifn == nm}
             exp = {k: re.sub(r"\s+", "", v) for k, v in exp.items()}
